@@ -5,12 +5,18 @@
    the present set only); Conf_* compare it with the MECHANISM layer (informational). *)
 EXTENDS BestPath, BestPathDom, TraceUtil
 
-VARIABLES l, present, obs, everTainted
-tvars == <<list, tainted, l, present, obs, everTainted>>
+VARIABLES l, present, obs, everTainted, stream
+tvars == <<list, tainted, l, present, obs, everTainted, stream>>
 
-NoObs == [list |-> <<>>, best |-> NONE, multi |-> <<>>, chgbest |-> "nochange"]
+NoObs == [list |-> <<>>, best |-> NONE, multi |-> <<>>, chgbest |-> "nochange", chgkind |-> "nochange", chgsrc |-> NONE]
 
-TraceInit == Init /\ l = 1 /\ present = {} /\ obs = NoObs /\ everTainted = FALSE
+TraceInit == Init /\ l = 1 /\ present = {} /\ obs = NoObs /\ everTainted = FALSE /\ stream = NONE
+
+(* the best-path notification of one Calculate (Update.GetChanges for the global view, what the server hands to
+   propagation, watchers, BMP, MRT and the FIB) replayed on top of the notifications before it *)
+Replay(s, o) == CASE o.chgkind = "nochange" -> s
+                  [] o.chgkind = "wd" -> NONE
+                  [] OTHER -> o.chgsrc
 
 IsEvent(e) == l <= TLen /\ Trace[l].ev = e /\ l' = l + 1
 
@@ -19,7 +25,7 @@ OptMatches(o) == o.acm = Opt.acm /\ o.ignlen = Opt.ignlen /\ o.extcmp = Opt.extc
 TReset == /\ IsEvent("Reset")
           /\ Assert(OptMatches(Trace[l].opt), "trace recorded under other options than this cfg")
           /\ list' = <<>> /\ tainted' = FALSE /\ present' = {} /\ obs' = NoObs
-          /\ everTainted' = FALSE
+          /\ everTainted' = FALSE /\ stream' = NONE
 
 TAdd == /\ IsEvent("Add")
         /\ LET r == Trace[l].r IN
@@ -27,7 +33,7 @@ TAdd == /\ IsEvent("Add")
              /\ present' = {x \in present : x.src # r.src} \cup {r}
              /\ LET np == {x \in present : x.src # r.src} \cup {r}
                 IN NoteIf(Cardinality(TopTie(np)) >= 2, <<Opt, np>>)
-        /\ obs' = Trace[l].obs
+        /\ obs' = Trace[l].obs /\ stream' = Replay(stream, Trace[l].obs)
         /\ everTainted' = (everTainted \/ tainted')
 
 TWithdraw == /\ IsEvent("Withdraw")
@@ -36,7 +42,7 @@ TWithdraw == /\ IsEvent("Withdraw")
                   /\ present' = {x \in present : x.src # s}
                   /\ LET np == {x \in present : x.src # s}
                      IN NoteIf(Cardinality(TopTie(np)) >= 2, <<Opt, np>>)
-             /\ obs' = Trace[l].obs
+             /\ obs' = Trace[l].obs /\ stream' = Replay(stream, Trace[l].obs)
              /\ everTainted' = (everTainted \/ tainted')
 
 TraceNext == TReset \/ TAdd \/ TWithdraw
@@ -48,6 +54,12 @@ TraceAccepted == Accepted
 ---------------------------------------------------------------------------
 ObsSet(f) == SeqToSet(obs[f])
 BySrc(srcs) == {x \in present : x.src \in srcs}
+
+(* C02 (last clause), judged here because the table-level traces carry it: the best-path notification stream
+   replayed in order reproduces the current best path - also when the best path moves between two sources whose
+   routes a neighbour could not tell apart.  A consistency requirement between two outputs of the code (the table
+   and its change notification); the decision-process model is not involved *)
+C02_BestStreamReplays == stream = obs.best
 
 (* the list the code reports holds exactly one route per present source *)
 C03_ListIsPresent == /\ ObsSet("list") = {x.src : x \in present}
